@@ -160,18 +160,18 @@ def _in_prefix(h, i):
 import re as _re
 
 _SPLIT = _re.compile(r"([$,:|.={}])")
-_NUMTOK = _re.compile(r"^([A-Za-z_-]*?)\s*\+?0*(\d+)\s*$")
+_NUMTOK = _re.compile(r"^([A-Za-z_-]*?)\s*\+?0*(\d+(?:_\d+)*)\s*$")
 
 
 def _numeric_canon(s, seed_fields=None):
-    """canonical form in which decorated integers ('+1', ' 1', '01') inside separator-delimited fields are
+    """canonical form in which decorated integers ('+1', ' 1', '01', '1_000') inside separator-delimited fields are
     reduced to the plain integer -- only for fields that are pure 'word+digits' tokens"""
     parts = _SPLIT.split(s)
     out = []
     for p in parts:
         m = _NUMTOK.match(p)
-        if m and len(m.group(2)) <= 12:
-            out.append(m.group(1) + str(int(m.group(2))))
+        if m and len(m.group(2)) <= 16:
+            out.append(m.group(1) + str(int(m.group(2))))  # int() also reads '1_000' (PEP 515 digit grouping)
         else:
             out.append(p)
     return "".join(out)
